@@ -17,7 +17,10 @@ import re
 # spelling
 # ------------------------------------------------------------------------------------------------------
 TRIVIA = [" ", "  ", "\t", "\n", "\r\n", " \n  ", "\f", " (* c *) ", "(**)", " (***) ", "\n(* multi\n   line *)\n",
-          " (* ( nested-looking (* *) ", "(* é € *)", " (* a ** b **) ", "\t(* 'q' *)\t"]
+          " (* ( nested-looking (* *) ", "(* é € *)", " (* a ** b **) ", "\t(* 'q' *)\t",
+          # the start key of an OSCAT description header WITHOUT its end key: an ordinary comment (never add the end key here:
+          # the text between the two keys is blanked by the documented preprocessing)
+          " (*@KEY@:DESCRIPTION*) "]
 
 
 def case_variant(word, rng):
